@@ -74,6 +74,9 @@ func ioRoutes() []ioRoute {
 		{"md-dryrun/iter", "dry-iter", wproto.Req{Op: "output", DryRun: true}, false},
 		{"md-dryrun/slice", "dry-once", wproto.Req{Op: "output", DryRun: true, NoIter: true}, false},
 		{"md-dryrun/massive", "dry-iter", wproto.Req{Op: "output", DryRun: true, Massive: true}, false},
+		{"root-dryrun", "dry-once", wproto.Req{Op: "output", DryRun: true, Route: "root"}, true},
+		{"root-dryrun/massive", "dry-iter", wproto.Req{Op: "output", DryRun: true, Route: "root", Massive: true}, true},
+		{"md-mkdir-dryrun/massive", "dry-iter", wproto.Req{Op: "mkdir", DryRun: true, Massive: true, Target: "/nonexistent-verif"}, false},
 		{"root-mkdir-dryrun", "dry-once", wproto.Req{Op: "mkdir", DryRun: true, Route: "root", Target: "/nonexistent-verif"}, true},
 		{"md-mkdir-dryrun", "dry-once", wproto.Req{Op: "mkdir", DryRun: true, Target: "/nonexistent-verif"}, false},
 		// reader-only routes
